@@ -1,5 +1,254 @@
 (* C11 -- the closed form of the comoving volume (reference of the documented-accuracy checks for V)
    against its definition as an integral of the volume element. *)
-From Coq Require Import Reals Lra.
+From Coq Require Import Reals Lra Psatz.
 From Coquelicot Require Import Coquelicot.
 From EsVerif.C11 Require Import Gen Model Spec Proofs.
+Local Open Scope R_scope.
+
+(* ------------------------------------------------------------------------------------------ *)
+(* continuity of the integrand 1/E and the derivative of z |-> I_def c 0 z                      *)
+(* ------------------------------------------------------------------------------------------ *)
+
+Lemma E2_continuous c z : continuous (E2 c) z.
+Proof.
+  apply (ex_derive_continuous (E2 c)). unfold E2. auto_derive. exact I.
+Qed.
+
+Lemma E2_pos_locally c z : 0 < E2 c z -> locally z (fun t => 0 < E2 c t).
+Proof.
+  intro H. apply (E2_continuous c z (fun y => 0 < y)). apply (open_gt 0). exact H.
+Qed.
+
+Lemma Einv_continuous c z : 0 < E2 c z -> continuous (Einv_def c) z.
+Proof.
+  intro H. apply (ex_derive_continuous (Einv_def c)). unfold Einv_def, E2 in *.
+  auto_derive. split; [|split]; auto.
+  apply Rgt_not_eq. apply sqrt_lt_R0. exact H.
+Qed.
+
+Lemma I_is_RInt c b :
+  (forall t, Rmin 0 b <= t <= Rmax 0 b -> 0 < E2 c t) ->
+  is_RInt (Einv_def c) 0 b (I_def c 0 b).
+Proof.
+  intro H. unfold I_def. apply (RInt_correct (Einv_def c)).
+  apply (ex_RInt_continuous (Einv_def c)). intros z Hz. apply Einv_continuous. auto.
+Qed.
+
+(* positivity on the hull [a,b] of 0 and the redshifts *)
+Lemma I_derive c a b z : a <= 0 <= b -> a <= z <= b ->
+  (forall t, a <= t <= b -> 0 < E2 c t) ->
+  is_derive (fun t => I_def c 0 t) z (Einv_def c z).
+Proof.
+  intros Hab Hz P.
+  apply (is_derive_RInt (Einv_def c) (fun t => I_def c 0 t) 0 z).
+  - destruct (E2_pos_locally c z (P z Hz)) as [eps He].
+    exists eps. intros y Hy. apply I_is_RInt. intros t Ht.
+    destruct (Rle_dec a t) as [L1|L1]; [destruct (Rle_dec t b) as [L2|L2]|].
+    + apply P; lra.
+    + apply He. unfold ball in *; simpl in *. unfold AbsRing_ball, abs, minus, plus, opp in *; simpl in *.
+      unfold Rmin, Rmax in Ht. destruct (Rle_dec 0 y) in Ht; unfold Rabs in *;
+      destruct (Rcase_abs (y + - z)); destruct (Rcase_abs (t + - z)); lra.
+    + apply He. unfold ball in *; simpl in *. unfold AbsRing_ball, abs, minus, plus, opp in *; simpl in *.
+      unfold Rmin, Rmax in Ht. destruct (Rle_dec 0 y) in Ht; unfold Rabs in *;
+      destruct (Rcase_abs (y + - z)); destruct (Rcase_abs (t + - z)); lra.
+  - apply Einv_continuous. auto.
+Qed.
+
+(* the generic step: whenever d/dd Vcum_of = 4 pi Dm_of^2 and Dm_of is continuous *)
+Section Generic.
+  Variable c : cosmoR.
+  Hypothesis HV : forall d, is_derive (Vcum_of c) d (4 * PI * (Dm_of_def c d) ^ 2).
+  Hypothesis HM : forall d, continuous (Dm_of_def c) d.
+
+  Definition dV_alt (z : R) : R := 4 * PI * (Dm_of_def c (Dc_def c 0 z)) ^ 2 * (cDH c * Einv_def c z).
+
+  Lemma dV_alt_eq z : -1 < z -> dV_alt z = 4 * PI * dV_def c z.
+  Proof.
+    intro H. unfold dV_alt, dV_def, Da_def, Dm_def. field. lra.
+  Qed.
+
+  Variables a b : R.
+  Hypothesis Hab : a <= 0 <= b.
+  Hypothesis P : forall t, a <= t <= b -> 0 < E2 c t.
+
+  Lemma Dc_derive z : a <= z <= b -> is_derive (fun t => Dc_def c 0 t) z (cDH c * Einv_def c z).
+  Proof.
+    intro Hz. unfold Dc_def.
+    apply (is_derive_scal (fun t => I_def c 0 t) z (cDH c) (Einv_def c z)).
+    apply (I_derive c a b); auto.
+  Qed.
+
+  Lemma Vcum_derive z : a <= z <= b -> is_derive (Vcum_closed c) z (dV_alt z).
+  Proof.
+    intro Hz. unfold Vcum_closed, dV_alt.
+    replace (4 * PI * Dm_of_def c (Dc_def c 0 z) ^ 2 * (cDH c * Einv_def c z))
+      with (scal (cDH c * Einv_def c z) (4 * PI * Dm_of_def c (Dc_def c 0 z) ^ 2))
+      by (unfold scal; simpl; unfold mult; simpl; ring).
+    apply (is_derive_comp (Vcum_of c) (fun t => Dc_def c 0 t) z).
+    - apply HV.
+    - apply Dc_derive; auto.
+  Qed.
+
+  Lemma dV_alt_continuous z : a <= z <= b -> continuous dV_alt z.
+  Proof.
+    intro Hz. unfold dV_alt.
+    apply (continuous_mult (fun z => 4 * PI * Dm_of_def c (Dc_def c 0 z) ^ 2) (fun z => cDH c * Einv_def c z)).
+    - apply (continuous_mult (fun _ => 4 * PI) (fun z => Dm_of_def c (Dc_def c 0 z) ^ 2)).
+      + apply continuous_const.
+      + simpl.
+        apply (continuous_mult (fun z => Dm_of_def c (Dc_def c 0 z)) (fun z => Dm_of_def c (Dc_def c 0 z) * 1)).
+        * apply (continuous_comp (fun t => Dc_def c 0 t) (Dm_of_def c)); [|apply HM].
+          apply (ex_derive_continuous (fun t => Dc_def c 0 t)). eexists. apply Dc_derive; auto.
+        * apply (continuous_mult (fun z => Dm_of_def c (Dc_def c 0 z)) (fun _ => 1)); [|apply continuous_const].
+          apply (continuous_comp (fun t => Dc_def c 0 t) (Dm_of_def c)); [|apply HM].
+          apply (ex_derive_continuous (fun t => Dc_def c 0 t)). eexists. apply Dc_derive; auto.
+    - apply (continuous_mult (fun _ => cDH c) (Einv_def c)); [apply continuous_const|].
+      apply Einv_continuous; auto.
+  Qed.
+
+  Theorem V_closed_form_generic z1 z2 : -1 < a -> a <= z1 <= b -> a <= z2 <= b ->
+    V_def c z1 z2 = V_closed c z1 z2.
+  Proof.
+    intros Ha H1 H2. unfold V_def, V_closed.
+    assert (Hin : forall x, Rmin z1 z2 <= x <= Rmax z1 z2 -> a <= x <= b).
+    { intros x. unfold Rmin, Rmax. destruct (Rle_dec z1 z2); lra. }
+    apply is_RInt_unique.
+    apply (is_RInt_ext dV_alt).
+    - intros x Hx. apply dV_alt_eq. assert (a <= x <= b) by (apply Hin; lra). lra.
+    - apply (is_RInt_derive (Vcum_closed c) dV_alt).
+      + intros x Hx. apply Vcum_derive; auto.
+      + intros x Hx. apply dV_alt_continuous; auto.
+  Qed.
+End Generic.
+
+
+Lemma cosh_double u : cosh (2 * u) = 1 + 2 * sinh u ^ 2.
+Proof.
+  unfold cosh, sinh.
+  assert (E : exp u * exp (- u) = 1) by (rewrite <- exp_plus, Rplus_opp_r; apply exp_0).
+  replace (2 * u) with (u + u) by ring. replace (- (u + u)) with (- u + - u) by ring.
+  rewrite !exp_plus.
+  replace (((exp u - exp (- u)) / 2) ^ 2) with ((exp u * exp u - 2 * (exp u * exp (- u)) + exp (- u) * exp (- u)) / 4) by field.
+  rewrite E. field.
+Qed.
+
+Lemma Vcum_of_derive c d : is_derive (Vcum_of c) d (4 * PI * (Dm_of_def c d) ^ 2).
+Proof.
+  unfold Vcum_of, Dm_of_def.
+  destruct (total_order_T 0 (cok c)) as [[L|E]|G].
+  - (* open *)
+    destruct (Req_dec (cDH c) 0) as [Z|NZ].
+    + rewrite Z. apply (is_derive_ext (fun _ => 0)).
+      * intro t. unfold Rdiv. rewrite Rmult_0_l. simpl. ring.
+      * match goal with |- is_derive _ _ ?e => replace e with 0 by (unfold Rdiv; rewrite Rmult_0_l; ring) end.
+        apply (@is_derive_const R_AbsRing R_NormedModule).
+    + assert (Hs : 0 < sqrt (cok c)) by (apply sqrt_lt_R0; assumption).
+      auto_derive; [exact I|].
+      unfold Rdiv. rewrite cosh_double. field. split; lra.
+  - (* flat *)
+    auto_derive; [exact I|]. field.
+  - (* closed *)
+    destruct (Req_dec (cDH c) 0) as [Z|NZ].
+    + rewrite Z. apply (is_derive_ext (fun _ => 0)).
+      * intro t. unfold Rdiv. rewrite Rmult_0_l. simpl. ring.
+      * match goal with |- is_derive _ _ ?e => replace e with 0 by (unfold Rdiv; rewrite Rmult_0_l; ring) end.
+        apply (@is_derive_const R_AbsRing R_NormedModule).
+    + assert (Hs : 0 < sqrt (- cok c)) by (apply sqrt_lt_R0; lra).
+      auto_derive; [exact I|].
+      unfold Rdiv. rewrite cos_2a_sin. field. split; lra.
+Qed.
+
+Lemma Dm_of_def_continuous c d : continuous (Dm_of_def c) d.
+Proof.
+  apply (ex_derive_continuous (Dm_of_def c)). unfold Dm_of_def.
+  destruct (total_order_T 0 (cok c)) as [[L|E]|G]; auto_derive; exact I.
+Qed.
+
+(* ------------------------------------------------------------------------------------------ *)
+(* the theorems                                                                                 *)
+(* ------------------------------------------------------------------------------------------ *)
+(* any curvature; [a,b] is an interval containing 0 and both redshifts, inside z > -1, on which
+   E^2 is positive (the integrand of I_def is then defined and continuous) *)
+Theorem V_closed_form_hull : forall c a b z1 z2,
+  -1 < a -> a <= 0 <= b -> a <= z1 <= b -> a <= z2 <= b ->
+  (forall z, a <= z <= b -> 0 < E2 c z) ->
+  V_def c z1 z2 = V_closed c z1 z2.
+Proof.
+  intros c a b z1 z2 Ha Hab H1 H2 P.
+  apply (V_closed_form_generic c (Vcum_of_derive c) (Dm_of_def_continuous c) a b); assumption.
+Qed.
+
+Theorem V_closed_form : forall c z1 z2,
+  0 <= z1 <= z2 -> (forall z, 0 <= z <= z2 -> 0 < E2 c z) ->
+  V_def c z1 z2 = V_closed c z1 z2.
+Proof.
+  intros c z1 z2 H P. apply (V_closed_form_hull c 0 z2); try lra. exact P.
+Qed.
+
+Theorem V_closed_form_flat : forall c z1 z2,
+  cok c = 0 -> 0 <= z1 <= z2 -> (forall z, 0 <= z <= z2 -> 0 < E2 c z) ->
+  V_def c z1 z2 = V_closed c z1 z2.
+Proof. intros c z1 z2 _ H P. apply V_closed_form; assumption. Qed.
+
+Theorem V_closed_form_open : forall c z1 z2,
+  0 < cok c -> 0 <= z1 <= z2 -> (forall z, 0 <= z <= z2 -> 0 < E2 c z) ->
+  V_def c z1 z2 = V_closed c z1 z2.
+Proof. intros c z1 z2 _ H P. apply V_closed_form; assumption. Qed.
+
+Theorem V_closed_form_closed : forall c z1 z2,
+  cok c < 0 -> 0 <= z1 <= z2 -> (forall z, 0 <= z <= z2 -> 0 < E2 c z) ->
+  V_def c z1 z2 = V_closed c z1 z2.
+Proof. intros c z1 z2 _ H P. apply V_closed_form; assumption. Qed.
+
+(* what V_closed is in each curvature case (Hogg eq. 29 in u = sqrt|Ok| Dc/DH) *)
+Lemma V_closed_flat_explicit : forall c z1 z2, cok c = 0 ->
+  V_closed c z1 z2 = 4 * PI / 3 * (Dc_def c 0 z2 ^ 3 - Dc_def c 0 z1 ^ 3).
+Proof.
+  intros c z1 z2 K. unfold V_closed, Vcum_closed. rewrite !Vcum_of_flat by assumption. ring.
+Qed.
+
+Lemma V_closed_open_explicit : forall c z1 z2, 0 < cok c ->
+  let s := sqrt (cok c) in
+  let F := fun z => let u := s * Dc_def c 0 z / cDH c in
+                    4 * PI * (cDH c / s) ^ 3 * (sinh (2 * u) / 4 - u / 2) in
+  V_closed c z1 z2 = F z2 - F z1.
+Proof.
+  intros c z1 z2 K s F. unfold V_closed, Vcum_closed, Vcum_of, F, s.
+  destruct (total_order_T 0 (cok c)) as [[L|E]|G]; [reflexivity | lra | lra].
+Qed.
+
+Lemma V_closed_closed_explicit : forall c z1 z2, cok c < 0 ->
+  let s := sqrt (- cok c) in
+  let F := fun z => let u := s * Dc_def c 0 z / cDH c in
+                    4 * PI * (cDH c / s) ^ 3 * (u / 2 - sin (2 * u) / 4) in
+  V_closed c z1 z2 = F z2 - F z1.
+Proof.
+  intros c z1 z2 K s F. unfold V_closed, Vcum_closed, Vcum_of, F, s.
+  destruct (total_order_T 0 (cok c)) as [[L|E]|G]; [lra | lra | reflexivity].
+Qed.
+
+(* non-vacuity: the hypotheses are satisfiable in each curvature case *)
+Example V_closed_form_flat_concordance : forall z1 z2, 0 <= z1 <= z2 ->
+  let c := mkC 3000 true (3 / 10) (7 / 10) 0 in V_def c z1 z2 = V_closed c z1 z2.
+Proof.
+  intros z1 z2 H c. apply (V_closed_form_flat c z1 z2); [reflexivity | assumption |].
+  intros z Hz. unfold E2, c; simpl com; simpl cok; simpl col.
+  assert (0 < (1 + z) ^ 3) by (apply pow_lt; lra). lra.
+Qed.
+
+Example V_closed_form_open_example : forall z1 z2, 0 <= z1 <= z2 ->
+  let c := mkC 3000 false (3 / 10) (6 / 10) (1 / 10) in V_def c z1 z2 = V_closed c z1 z2.
+Proof.
+  intros z1 z2 H c. apply (V_closed_form_open c z1 z2); [simpl; lra | assumption |].
+  intros z Hz. unfold E2, c; simpl com; simpl cok; simpl col.
+  assert (0 < (1 + z) ^ 3) by (apply pow_lt; lra).
+  assert (0 < (1 + z) ^ 2) by (apply pow_lt; lra). lra.
+Qed.
+
+Example V_closed_form_closed_example : forall z1 z2, 0 <= z1 <= z2 ->
+  let c := mkC 3000 false (3 / 10) (8 / 10) (- 1 / 10) in V_def c z1 z2 = V_closed c z1 z2.
+Proof.
+  intros z1 z2 H c. apply (V_closed_form_closed c z1 z2); [simpl; lra | assumption |].
+  intros z Hz. unfold E2, c; simpl com; simpl cok; simpl col.
+  assert (X : 1 <= 1 + z) by lra. revert X. generalize (1 + z). intros x X. simpl. nra.
+Qed.
